@@ -82,6 +82,8 @@ def run(ck: Checker, prog: Program, tier: str):
         for k in c02.LOOP_KERNELS:
             ck.guard(c02._kernel, ck, prog, k)
         ck.guard(c02._sg, ck, prog)
+    from .common import check_identity_comparisons as _cic
+    ck.guard(_cic, ck, prog, "C03.R1", "C03")
 
 
 def _is_aug(st, name, amount: Optional[str] = "1") -> bool:
